@@ -213,7 +213,7 @@ def work_bytes(job):
             ext = rng.choice(EXTS) if rng.random() < 0.7 else (gen.rand_ext(rng) & ~(D.EXT['PARSE_OPML'] | D.EXT['PARSE_ITMZ']))
             for fmt in FMTS:
                 case = dict(requests=[D.req_to_json('asan', 'CONVERT', fmt, ext, 0, 2 | (1 << 4), [src])])
-                rep = s.call('asan', 'CONVERT', fmt, ext, 0, 2 | (1 << 4), [src], what='[bytes]', hang_is_violation=True, crash_is_violation=False)
+                rep = s.call('asan', 'CONVERT', fmt, ext, 0, 2 | (1 << 4), [src], what='[bytes]', hang_is_violation=True, crash_is_violation=True)
                 r.evaluations += 1
                 r.stats['conversions'] += 1
                 if rep is None:
@@ -325,7 +325,7 @@ def work_containers(job):
                     continue        # glossary definitions go to the LaTeX preamble (complete documents only): not body text there
                 ext = D.EXT_CLI
                 case = dict(requests=[D.req_to_json('asan', 'CONVERT', fmt, ext, 0, 2 | (1 << 4), [src])])
-                rep = s.call('asan', 'CONVERT', fmt, ext, 0, 2 | (1 << 4), [src], what='[%s: %s + %s]' % (cname, KINDS[k1][0], KINDS[k2][0]), hang_is_violation=True, crash_is_violation=False)
+                rep = s.call('asan', 'CONVERT', fmt, ext, 0, 2 | (1 << 4), [src], what='[%s: %s + %s]' % (cname, KINDS[k1][0], KINDS[k2][0]), hang_is_violation=True, crash_is_violation=True)
                 r.evaluations += 1
                 r.stats['conversions_in_containers'] += 1
                 if rep is None:
@@ -361,7 +361,7 @@ def work_docs(job):
             for fmt in (F['html'], F['latex'], F['fodt'], F['opml']):
                 ext = D.EXT_CLI
                 case = dict(requests=[D.req_to_json('asan', 'CONVERT', fmt, ext, 0, 2 | (1 << 4), [src])])
-                rep = s.call('asan', 'CONVERT', fmt, ext, 0, 2 | (1 << 4), [src], what='[structured document]', hang_is_violation=True, crash_is_violation=False)
+                rep = s.call('asan', 'CONVERT', fmt, ext, 0, 2 | (1 << 4), [src], what='[structured document]', hang_is_violation=True, crash_is_violation=True)
                 r.evaluations += 1
                 r.stats['conversions_structured_documents'] += 1
                 if rep is None:
